@@ -410,3 +410,41 @@ Proof.
   induction s as [|c s IH]; [cbn; lia|]. cbn [utf8_encode flat_map length]. fold (utf8_encode s).
   rewrite app_length. pose proof (encode1_length c). lia.
 Qed.
+
+(* ---------------------------------------------------------------- typed text contains no ESC byte *)
+
+Lemma lor_not_esc : forall K x, Z.shiftr K 7 <> 0 -> Z.lor K x <> 27.
+Proof.
+  intros K x HK E. apply (f_equal (fun z => Z.shiftr z 7)) in E. rewrite Z.shiftr_lor in E.
+  change (Z.shiftr 27 7) with 0 in E. apply Z.lor_eq_0_l in E. contradiction.
+Qed.
+
+Lemma encode1_no_esc : forall c, c <> 27 -> ~ In 27 (encode1 c).
+Proof.
+  intros c Hc. unfold encode1.
+  set (c' := if (c <? 0) || (1114111 <? c) || ((55296 <=? c) && (c <=? 57343)) then rune_error else c).
+  assert (Hc' : c' <> 27) by (unfold c', rune_error; destruct ((c <? 0) || (1114111 <? c) || ((55296 <=? c) && (c <=? 57343))); lia).
+  assert (L : forall K x, (K = 128 \/ K = 192 \/ K = 224 \/ K = 240) -> Z.lor K x <> 27).
+  { intros K x HK. apply lor_not_esc. destruct HK as [->|[->|[->| ->]]]; vm_compute; discriminate. }
+  destruct (c' <? 128); [intros [E|[]]; lia|].
+  destruct (c' <? 2048); [intros [E|[E|[]]]; revert E; apply L; auto|].
+  destruct (c' <? 65536); [intros [E|[E|[E|[]]]]; revert E; apply L; auto | intros [E|[E|[E|[E|[]]]]]; revert E; apply L; auto].
+Qed.
+
+Lemma typable_not_esc : forall c, typable c = true -> c <> 27.
+Proof. intros c H. unfold typable in H. lia. Qed.
+
+Lemma typed_no_esc : forall s, forallb typable s = true -> ~ In 27 (utf8_encode s ++ [13]).
+Proof.
+  induction s as [|c s IH]; intros H; cbn [utf8_encode flat_map app].
+  - intros [E|[]]. discriminate.
+  - cbn [forallb] in H. apply andb_true_iff in H. destruct H as [Hc Hs]. fold (utf8_encode s). rewrite <- app_assoc.
+    intros X. apply in_app_or in X. destruct X as [X|X]; [exact (encode1_no_esc c (typable_not_esc c Hc) X) | exact (IH Hs X)].
+Qed.
+
+Lemma concat_no_esc : forall cs, ~ In 27 (concat cs) -> Forall (fun c => ~ In 27 c) cs.
+Proof.
+  induction cs as [|c cs IH]; intros H; constructor.
+  - intros X. apply H. cbn [concat]. apply in_or_app. left. exact X.
+  - apply IH. intros X. apply H. cbn [concat]. apply in_or_app. right. exact X.
+Qed.
